@@ -27,6 +27,9 @@ RULES = {
              'lock of Database.map — value and version of a notification are the committed operands, not a later re-read',
     'C03.h': 'a refused write notifies nobody: in the Arbiter arm of the conflict resolver (which answers an error) the notifying store is '
              'not called with the key of the refused change — the in-conflict marker goes through the raw, non-notifying writer',
+    'C03.i': 'the raw entry writer (inserts into Database.map without notifying: the snapshot\'s mark-as-saved and the in-conflict marker) '
+             'never stores a NEW value: at every call the value argument is the entry\'s own current value, never a field of a Change — '
+             'a changed value written through it is committed and no watcher hears of it',
 }
 
 VALUE_MAP = 'std::collections::HashMap::<std::string::String, nundb::bo::Value>::'
@@ -48,6 +51,7 @@ def node_bodies(m):
 def run(ck, m):
     _run(ck, m)
     refused_write_silent(ck, m)
+    raw_writer_keeps_value(ck, m)
 
 
 def _run(ck, m):
@@ -374,3 +378,42 @@ def refused_write_silent(ck, m):
           'the Arbiter arm stores only its conflict record through the notifying store (%d call), never the refused key' % n if not bad else
           'the Arbiter arm calls the notifying store with the key of the refused change (%s): subscribers of the key receive changed / '
           'changed-version … -2 for a write that was answered with an error' % bad, rb.loc(arb))
+
+
+def raw_writer_keeps_value(ck, m):
+    """C03.i — see RULES"""
+    P = m.prog
+    VM = 'std::collections::HashMap::<std::string::String, nundb::bo::Value>::'
+    from props.C02 import store_fn, increment_fn, remover_fn
+    named = {store_fn(m).id, increment_fn(m).id, remover_fn(m).id}
+    # raw writers: Database methods that insert into the map, take the value as a string parameter, return nothing, and are not one
+    # of the three notifying mutators
+    raws = []
+    for b in P.user_bodies():
+        if b.kind != 'method' or b.id in named or b.locals[0] != '()' or b.argc < 3 or not b.locals[1].endswith('bo::Database'):
+            continue
+        if any(t['f'].get('dargs', '').startswith(VM + 'insert') for _, t in b.calls()):
+            vals = [i for i in range(2, b.argc + 1) if core.is_str_ty(b.locals[i])]
+            if len(vals) >= 2:
+                raws.append((b, vals[1]))       # (key, value, …): the second string parameter is the value
+    ck.floor('C03.i', len(raws), 1, 'raw entry writers (insert without notification)')
+    n = 0
+    for rb_, vi in raws:
+        for cb, cbi in P.callers().get(rb_.id, []):
+            if cb.id.startswith(('nundb::client::', 'nundb::command_line::')):
+                continue
+            t = cb.term(cbi)
+            if len(t['args']) < vi:
+                continue
+            n += 1
+            from_change = []
+            for r in origins(cb, t['args'][vi - 1]):
+                path = r[-1] if isinstance(r[-1], tuple) else ()
+                adts = [q[3] for q in path if q and q[0] == 'f' and len(q) > 3]
+                if any(a.endswith('bo::Change') for a in adts):
+                    from_change.append('.'.join(q[2] for q in path if q and q[0] == 'f'))
+            ck.ob('C03.i', short(cb.id), 'raw-write-keeps-the-value:%s' % short(rb_.id), not from_change,
+                  'the value handed to the raw writer is the entry\'s own value' if not from_change else
+                  '%s stores the value of a Change (%s) through %s, which does not notify: the write is committed — get returns it — and no '
+                  'watcher of the key receives a notification for it' % (short(cb.id), from_change, short(rb_.id)), cb.loc(cbi))
+    ck.floor('C03.i', n, 2, 'calls of the raw entry writer')
